@@ -151,6 +151,7 @@ func runC02(r *harness.Run) {
 		pg.runGens(gg, og)
 	}
 	c02LongTail(r)
+	manyResults(r)
 	runPinned(r, "C02")
 	// the values of a resume arrive as the results of the pending yield also when the HOST resumes
 	// (LState.Resume with 0/1/3 values against call sites that expect 0, 1, 3 or all results)
